@@ -60,7 +60,7 @@ def case_strategy():
         'gyro': model_strategy(), 'accel': model_strategy(),
         'sensors': st.lists(sensor, min_size=1, max_size=3, unique_by=lambda s: s['cls']),
         'sd_exp': st.floats(-2.0, 2.0),
-        't0': st.sampled_from([0.0, 0.0, 1000.5, -30.0]),
+        't0': st.sampled_from([0.0, 0.0, 1000.5, -30.0, 1.7e9, 1.7e9]),        # 1.7e9: Unix-epoch seconds (stamps 2.4e-7 s apart in float64)
         'sub_inc': st.sampled_from([1, 1, 2, 5]),           # increments per trajectory row interval (an IMU faster than the stored trajectory)
         'sub': st.integers(0, 2 ** 31 - 1),
     })
@@ -292,7 +292,13 @@ def run_estimator(case, ctx):
     em, ni, ng = o['em'], o['ni'], o['ng']
     grid = o['grid']
     xs, Ps = o['xs'], o['Ps']
-    slack = 1e-6 + 100 * 2.2e-16 * o['condS']
+    # the stamps are float64 numbers: at a Unix-epoch origin (1.7e9 s) neighbouring stamps are 2.4e-7 s apart, so an interval of
+    # the grid is only defined to ulp(t)/dt relative, and two exact estimators that form their time differences in another order
+    # differ by that much (measured: 2.3e-7 relative at 1.7e9 with 20 Hz rows, 5e-11 at small origins)
+    t_abs = float(np.abs(sc.times).max())
+    dt_min = float(np.diff(np.asarray(sc.inc.index, float)).min())
+    slack = 1e-6 + 100 * 2.2e-16 * o['condS'] + 16 * np.spacing(t_abs) / dt_min
+    ctx.label('t0=' + ('0' if case.get('t0', 0.0) == 0 else 'unix_epoch' if abs(case.get('t0', 0.0)) > 1e9 else 'small'))
     tn = sc.nominal.loc[grid]
     tcg = sc.computed.loc[grid]
     Tm = em.transform_to_output(tn)
